@@ -74,6 +74,17 @@ where
 
         Box::pin(async move {
             trace!("TLS handshake start for: {:?}", stream.hostname());
+
+            // The host name comes from the connect request. A NUL byte makes the backend panic
+            // while it builds the C string for the server name; report it as an error of this
+            // connection attempt, like the other connectors do.
+            if stream.hostname().contains('\0') {
+                return Err(io::Error::new(
+                    io::ErrorKind::InvalidInput,
+                    "connection parameters specified invalid server name",
+                ));
+            }
+
             connector
                 .connect(stream.hostname(), io)
                 .await
